@@ -28,7 +28,7 @@ def mk(name, servers, arrivals, services, routing, classes=None, qcap=None, disc
             'batching': kw.get('batching'), 'reneging': kw.get('reneging'), 'baulking': kw.get('baulking'),
             'routing': routing if isinstance(routing, dict) and all(k in classes for k in routing) else {c: routing for c in classes},
             'ccm': kw.get('ccm'), 'cct': kw.get('cct'), 'syscap': kw.get('syscap'), 'exact': kw.get('exact', False),
-            'tracker': kw.get('tracker'), 'run': kw.get('run', {'method': 'time', 'T': T}), 'tie': kw.get('tie', 'native'), 'profile': 'pinned'}
+            'share_objects': kw.get('share_objects', False), 'tracker': kw.get('tracker'), 'run': kw.get('run', {'method': 'time', 'T': T}), 'tie': kw.get('tie', 'native'), 'profile': 'pinned'}
     return spec
 
 
@@ -121,6 +121,9 @@ ALL = [
     mk('flexible_all_jsq', [I(1), I(1), I(1)], [det(1.0), None, None], [det(0.5), det(1.75), det(1.0)], {'r': 'fpb', 'routes': [[[2, 3]], [[3, 2], [1]], [[2]]], 'rule': 'all', 'choice': 'jsq'}, T=30.0),
     # exact arithmetic with reneging and an idle second server (repaired K5a, K5b)
     mk('exact_reneging_idle_server', [I(2)], [det(4.0)], [det(1.0)], TM([[0.0]]), reneging={'C0': [det(2.5)]}, exact=14, T=20.0),
+    # one distribution object handed to several slots: every (node, class) stream still consumes its own copy
+    mk('shared_distribution_objects', [I(1), I(2)], [seq(1.0, 2.0, 4.0), seq(1.0, 2.0, 4.0)], [seq(0.5, 1.5, 0.25), seq(0.5, 1.5, 0.25)], TM([[0.0, 0.0], [0.0, 0.0]]),
+       batching={'C0': [seq(1, 2, 1, 3), seq(1, 2, 1, 3)]}, share_objects=True, T=40.0),
     # stop by customer count
     mk('count_complete_with_reneging', [I(1)], [det(1.0)], [det(2.5)], TM([[0.0]]), reneging={'C0': [det(2.0)]}, run={'method': 'customers', 'n': 6, 'cmethod': 'Complete', 'T': 0}),
     mk('count_accept_with_baulking', [I(1)], [det(1.0)], [det(2.5)], TM([[0.0]]), baulking={'C0': [{'b': 'thresh', 'k': 2}]}, run={'method': 'customers', 'n': 6, 'cmethod': 'Accept', 'T': 0}),
